@@ -230,17 +230,18 @@ def consts_set(tier):
 
 def ex_enum(w):
     full = tuple(range(1 << w))
-    return EnumDef(w, 'true', full[1:] + full[:1])
+    # user types whose names look like "letter + digits" (X3, Q17) must not be mistaken for integer types
+    return EnumDef(w, 'true', full[1:] + full[:1], alias=f"X{w}")
 
 
 def ne_enum(w):
     mx = (1 << w) - 1
     if w == 1:
-        return EnumDef(1, 'false', (1,))
+        return EnumDef(1, 'false', (1,), alias="Q1")
     ds = [mx, 0, 1 << (w - 1)]
     if w >= 3:
         ds.append(1)
-    return EnumDef(w, 'false', tuple(ds), omit_exh=(w % 2 == 0))
+    return EnumDef(w, 'false', tuple(ds), omit_exh=(w % 2 == 0), alias=f"Q{w}")
 
 
 NE_WIDTHS = (1, 2, 3, 4, 5, 6, 7, 8, 9, 16, 17, 32, 33, 63, 64)
